@@ -501,6 +501,12 @@ func (f *FuncCFG) allDefs(n ast.Node, o types.Object) []ast.Expr {
 // C03 mpt-batch-source
 
 func ruleMPTBatchSource(c *Ctx) {
+	// after a state reset the module's working trie is the trie of the reset height - unconditionally, whatever the
+	// module held before: blocks applied afterwards must extend exactly that state
+	runGates(c, []GateSpec{{
+		ID: "ResetState.reroots-working-trie", Fn: [3]string{"pkg/core/stateroot", "Module", "ResetState"}, Target: "ok-return",
+		MustNode: [][]string{{"pkg/core/stateroot#mpt", "pkg/core/mpt.NewTrie", "pkg/core/mpt.NewHashNode"}},
+	}})
 	fd := c.P.Func(fnStoreBlock[0], fnStoreBlock[1], fnStoreBlock[2])
 	if fd == nil {
 		c.Lost("storeBlock.anchor", "storeBlock not found")
